@@ -121,6 +121,14 @@ template <class T> std::vector<Op<T>> ops() {
   o.push_back({"d_mul_dir", 9, 3, true, [](const Vv& a, const Vv& b) { return C(DY(a) * DIR(b)); }, REF2(R::matvec(a, b))});
   o.push_back({"sd_mul_pdir", 6, 2, true, [](const Vv& a, const Vv& b) { return C(SD(a) * PDIR(b)); }, REF2(R::matvec(R::symembed(a), R::planar(b)))});
   o.push_back({"d_mul_pdir", 9, 2, true, [](const Vv& a, const Vv& b) { return C(DY(a) * PDIR(b)); }, REF2(R::matvec(a, R::planar(b)))});
+  // the direction on the LEFT (operand b of the event is the axis-aligned direction, a the vector): Direction.Cross/Dyadic(Vector), and two directions (the second is b rotated)
+  o.push_back({"dir_cross_v", 3, 3, true, [](const Vv& a, const Vv& b) { return C(DIR(b).Cross(V3(a))); }, REF2(R::cross(b, a))});
+  o.push_back({"dir_dyadic_v", 3, 3, true, [](const Vv& a, const Vv& b) { return C(DIR(b).Dyadic(V3(a))); }, REF2(R::dyadic(b, a))});
+  o.push_back({"dir_dyadic_dir", 3, 3, true, [](const Vv&, const Vv& b) { return C(DIR(b).Dyadic(Direction<T>(b[1], b[2], b[0]))); }, REF2(R::dyadic(b, (std::vector<std::decay_t<decltype(b[0])>>{b[1], b[2], b[0]})))});
+  o.push_back({"pdir_cross_pv", 2, 2, true, [](const Vv& a, const Vv& b) { return C(PDIR(b).Cross(PV(a))); }, REF2(R::cross(R::planar(b), R::planar(a)))});
+  o.push_back({"pdir_dyadic_pv", 2, 2, true, [](const Vv& a, const Vv& b) { return C(PDIR(b).Dyadic(PV(a))); }, REF2(R::dyadic(R::planar(b), R::planar(a)))});
+  o.push_back({"pdir_dyadic_pdir", 2, 2, true, [](const Vv&, const Vv& b) { return C(PDIR(b).Dyadic(PlanarDirection<T>(b[1], b[0]))); }, REF2(R::dyadic(R::planar(b), R::planar(std::vector<std::decay_t<decltype(b[0])>>{b[1], b[0]})))});
+  o.push_back({"sd_transpose", 6, 0, false, [](const Vv& a, const Vv&) { return C(SD(a).Transpose()); }, REF2(a)});
   return o;
 }
 
